@@ -621,6 +621,23 @@ pub fn run_batch<P: Prop>(p: &P, opt: &Options) -> BatchResult {
                                 say!("VIOLATION property={} replay={path}", p.id());
                                 std::process::exit(1);
                             }
+                            Err(e) if e.contains("REPRODUCED-DIFFERENT class=") => {
+                                // on its own, in a fresh process, the stuck run returns — with a violation of another
+                                // class (it was slow or blocked here because of what else was going on in this
+                                // process): that violation is what gets reported, under its own class
+                                let class = e.split("REPRODUCED-DIFFERENT class=").nth(1).and_then(|r| r.split_whitespace().next()).unwrap_or("").to_string();
+                                let key = e.split(" key=").nth(1).and_then(|r| r.split_whitespace().next()).unwrap_or("").to_string();
+                                let detail = e.split(" detail=").nth(1).unwrap_or("").trim().to_string();
+                                let v2 = Violation { class: class.clone(), key: key.clone(), detail: detail.clone() };
+                                let path2 = write_replay(p, opt, run, std::slice::from_ref(&case), &v2);
+                                if confirm_in_fresh_process(&path2, &class).is_ok() {
+                                    say!("  class={class} key={key} run={run} detail={detail}");
+                                    say!("VIOLATION property={} replay={path2}", p.id());
+                                    std::process::exit(1);
+                                }
+                                last_err = e;
+                                last_path = path2;
+                            }
                             Err(e) => {
                                 last_err = e;
                                 last_path = path;
